@@ -450,6 +450,13 @@ def run_case(case):
         if case.get('layout') == 'F':
             phi, phin = flay(phi), flay(phin)
         kw = {} if not case.get('scaling') else dict(scaling=case['scaling'])
+        if case['seed'] % 2:
+            # block-online use: the SAME array objects held other statistics during an earlier call and were updated in place
+            bufx, bufn = phi + pd(rng, F, D, 1e2), phin * 3.0 + pd(rng, F, D, 1e2)
+            (_call(bw.get_pca_rank_one_estimate, bufx, **kw) if case['which'] == 'pca' else _call(bw.get_gev_rank_one_estimate, bufx, bufn))
+            bufx[...] = phi
+            bufn[...] = phin
+            phi, phin = bufx, bufn
         if case['which'] == 'pca':
             r1, exc = _call(bw.get_pca_rank_one_estimate, phi, **kw)
         else:
